@@ -103,8 +103,12 @@ structure Exact (L : Loaded) (x : Ent) : Prop where
   /-- a key / kind is never reported both as written and as removed -/
   propsDisjoint : ∀ k, k ∈ x.props.mod → k ∉ x.props.del
   kindsDisjoint : ∀ k, k ∈ x.added → k ∉ x.removed
-  /-- applied to the loaded state, the change sets the drivers read reproduce the current state exactly -/
-  propsReproduce : Reproduces L.kv x.props
+  /-- applied to the stored (= loaded) state, the change sets the drivers read reproduce the current state exactly; for an
+  entity whose properties were replaced by `StripAllPropertiesExcept` (ghost flag `attached = false`, until a merge
+  with an attached entity) "exactly" is: every key it carries (modified or deleted) gets its current value, every
+  other key keeps its stored value -/
+  propsReproduce : ∀ k, lookup (applyDelta L.kv x.props.modifiedProperties x.props.del) k =
+    if x.attached = true ∨ k ∈ x.props.mod ∨ k ∈ x.props.del then lookup x.props.m k else lookup L.kv k
   kindsReproduce : KReproduces L.kinds x
   /-- the invariant of DESIGN §4 C12 -/
   inv : EInv L x
@@ -120,10 +124,12 @@ def LastEditWins : Prop :=
 
 /-- C12 for a version of the code (`old = true`: the merges before commit 179da67): for every loaded state with
 duplicate-free kinds and every finite history of Set/SetAll/Delete/reads/Clone/Properties.Merge/Relationship.Merge/
-AddKinds/DeleteKinds/Node.Merge over two entities loaded from it, both entities are tracked exactly; and the last edit
-wins. -/
+AddKinds/DeleteKinds/Node.Merge/StripAllPropertiesExcept over two entities loaded from it, both entities are tracked
+exactly; and the last edit wins.  (The statement about the old code is over histories without
+`StripAllPropertiesExcept`: it was written before that operation was modelled and is kept as it was.) -/
 def C12_for (old : Bool) : Prop :=
-  (∀ (L : Loaded), L.kinds.Nodup → ∀ (ops : List Op) (e : Bool), Exact L (((St.init L).run old ops).get e)) ∧
+  (∀ (L : Loaded), L.kinds.Nodup → ∀ (ops : List Op), (old = true → ∀ o, o ∈ ops → o.isStrip = false) →
+    ∀ (e : Bool), Exact L (((St.init L).run old ops).get e)) ∧
   LastEditWins
 
 /-- C12 at full strength for the code as it is in /repo. -/
@@ -132,13 +138,41 @@ def C12_full : Prop := C12_for false
 /-- the same statement about the code before commit 179da67 (finding F4) -/
 def C12_old : Prop := C12_for true
 
-theorem exact_of_einv {L : Loaded} {x : Ent} (h : EInv L x) : Exact L x :=
-  ⟨h.props.disj, h.kinds.disj, inv_reproduces h.props, kinv_reproduces h.kinds, h⟩
+theorem exact_of_einv {L : Loaded} {x : Ent} (h : EInv L x) : Exact L x := by
+  refine ⟨h.props.disj, h.kinds.disj, ?_, kinv_reproduces h.kinds, h⟩
+  intro k
+  have hp := h.props
+  unfold Ent.base at hp
+  cases ha : x.attached with
+  | true =>
+    rw [ha] at hp
+    simp only [true_or, if_true]
+    exact inv_reproduces hp k
+  | false =>
+    rw [ha] at hp
+    simp only [Bool.false_eq_true, false_or]
+    exact detached_update_exact hp L.kv k
 
-/-- `history_inv`: with the repaired merges the invariant holds after every history, for both entities. -/
+/-- `history_inv`: the invariant holds after every history, for both entities — relative to the loaded map, or to the
+empty map for an entity whose properties were replaced by `StripAllPropertiesExcept` and not merged back since. -/
 theorem history_inv (L : Loaded) (hn : L.kinds.Nodup) (ops : List Op) (e : Bool) :
-    Inv L.kv (((St.init L).run false ops).get e).props :=
+    Inv ((((St.init L).run false ops).get e).base L) (((St.init L).run false ops).get e).props :=
   (sinv_run (sinv_init L hn) ops e).props
+
+theorem satt_run {st : St} (h : SAtt st) (old : Bool) (ops : List Op) (hs : ∀ o, o ∈ ops → o.isStrip = false) :
+    SAtt (st.run old ops) := by
+  induction ops generalizing st with
+  | nil => exact h
+  | cons o ops ih =>
+    exact ih (satt_step h old o (hs o List.mem_cons_self)) (fun o' ho' => hs o' (List.mem_cons_of_mem _ ho'))
+
+/-- … in particular relative to the loaded map after every history without `StripAllPropertiesExcept`. -/
+theorem history_inv_attached (L : Loaded) (hn : L.kinds.Nodup) (ops : List Op)
+    (hs : ∀ o, o ∈ ops → o.isStrip = false) (e : Bool) :
+    Inv L.kv (((St.init L).run false ops).get e).props := by
+  have := history_inv L hn ops e
+  rw [base_att (satt_run (satt_init L) false ops hs e)] at this
+  exact this
 
 /-- `kinds_history_inv`: the same for the kind delta. -/
 theorem kinds_history_inv (L : Loaded) (hn : L.kinds.Nodup) (ops : List Op) (e : Bool) :
@@ -147,8 +181,16 @@ theorem kinds_history_inv (L : Loaded) (hn : L.kinds.Nodup) (ops : List Op) (e :
 
 /-- corollary: applying the recorded delta to the loaded state reproduces the current state, properties and kinds. -/
 theorem reproduce_loaded_state (L : Loaded) (hn : L.kinds.Nodup) (ops : List Op) (e : Bool) :
-    Reproduces L.kv (((St.init L).run false ops).get e).props ∧ KReproduces L.kinds (((St.init L).run false ops).get e) :=
-  ⟨inv_reproduces (history_inv L hn ops e), kinv_reproduces (kinds_history_inv L hn ops e)⟩
+    ((∀ o, o ∈ ops → o.isStrip = false) → Reproduces L.kv (((St.init L).run false ops).get e).props) ∧
+    (∀ k, lookup (applyDelta L.kv (((St.init L).run false ops).get e).props.modifiedProperties
+        (((St.init L).run false ops).get e).props.del) k =
+      if (((St.init L).run false ops).get e).attached = true ∨ k ∈ (((St.init L).run false ops).get e).props.mod ∨
+          k ∈ (((St.init L).run false ops).get e).props.del
+      then lookup (((St.init L).run false ops).get e).props.m k else lookup L.kv k) ∧
+    KReproduces L.kinds (((St.init L).run false ops).get e) :=
+  ⟨fun hs => inv_reproduces (history_inv_attached L hn ops hs e),
+   (exact_of_einv (sinv_run (sinv_init L hn) ops e)).propsReproduce,
+   kinv_reproduces (kinds_history_inv L hn ops e)⟩
 
 /-- What the drivers send (`ModifiedProperties()`, `DeletedProperties()`) is exactly the delta: the sent keys are the
 modified keys, every sent value is the current value of its key, no sent key is also deleted, and conversely disjoint
@@ -216,17 +258,67 @@ theorem constructors_untracked (L : Loaded) (hn : L.kinds.Nodup) :
     L.ent.added = [] ∧ L.ent.removed = [] ∧ EInv L L.ent :=
   ⟨rfl, rfl, rfl, rfl, rfl, rfl, ⟨inv_load L.store, kinv_load L hn⟩⟩
 
+/-! ### StripAllPropertiesExcept -/
+
+/-- `Node.StripAllPropertiesExcept(except)` yields properties tracked relative to the EMPTY map (a fresh object edited
+only by `Set`/`Delete`), whatever the entity looked like before; on a kept key it keeps the value and the deletion, every
+other key is absent and untracked; and sending its delta to the stored map `S` changes exactly the kept keys the entity
+had something for — every other stored key survives, whatever edits the entity carried for it before the strip. -/
+theorem strip_inv (s : Props) (except : List Key) (S : KV) :
+    Inv [] (s.strip except) ∧
+    (∀ k, status (s.strip except) k =
+      if k ∈ except then keptStatus s k (none, false, false) else (none, false, false)) ∧
+    (∀ k, lookup (applyDelta S (s.strip except).modifiedProperties (s.strip except).del) k =
+      if k ∈ except ∧ (k ∈ s.del ∨ lookup s.m k ≠ none) then (if k ∈ s.del then none else lookup s.m k)
+      else lookup S k) :=
+  ⟨inv_strip s except, status_strip s except, strip_update_exact s except S⟩
+
+/-- for an entity that satisfied the invariant of the loaded map before the strip, the update restores every kept key
+to the entity's current value (deletions included) and leaves the rest as stored -/
+theorem strip_keeps_exactly {L : KV} {s : Props} (h : Inv L s) (except : List Key) (k : Key) :
+    lookup (applyDelta L (s.strip except).modifiedProperties (s.strip except).del) k =
+      if k ∈ except then lookup s.m k else lookup L k := by
+  rw [strip_update_exact]
+  by_cases hk : k ∈ except
+  · by_cases hd : k ∈ s.del
+    · simp [hk, hd, h.delDom k hd]
+    · cases hv : lookup s.m k with
+      | some v => simp [hk, hd, hv]
+      | none =>
+        have hm : k ∉ s.mod := fun hh => h.modDom k hh hv
+        simp [hk, hd, hv, ← h.untouched k hm hd]
+  · simp [hk]
+
+/-! ### JSON round trip -/
+
+/-- Encoding a Properties / a node to JSON and decoding it into a fresh value loses nothing the tracking needs: the map,
+both tracking sets (nil stays nil, empty stays empty), the kinds and both kind deltas come back as they were — so a
+decoded entity reports exactly the delta the encoded one did, and the history invariant survives (`Op.json` is an
+operation of `C12_full`).  The struct tags and the fields the encoder / decoder handle are tied to the source in
+Props/C12Api.lean (`json_tags_match`, `json_carries_tracking`); the real encoding/json is run by the tie. -/
+theorem json_round_trip (s : Props) (x : Ent) :
+    Props.ofJson s.toJson = s ∧ x.jsonRoundTrip = x ∧
+    (Props.ofJson s.toJson).modifiedProperties = s.modifiedProperties ∧
+    (Props.ofJson s.toJson).deletedProperties = s.deletedProperties :=
+  ⟨props_json_roundtrip s, ent_json_roundtrip x, by rw [props_json_roundtrip], by rw [props_json_roundtrip]⟩
+
+/-- the decoder really reads the members (it is not the identity by accident): dropping the `deleted` member loses the
+deletions -/
+example : (Props.ofJson ((f4s.toJson).filter (fun p => p.1 != "deleted"))).deleted = none ∧ f4s.deleted = some [0] := by
+  decide
+
 /-! ### consumers (the table of real update paths is tied in Props/C12Consumers.lean) -/
 
 /-- Semantics of the two complete forms, for every entity that satisfies the invariant (i.e. after every history,
 `c12`): a path whose property part is complete reproduces the properties, a path whose kind part is complete
 reproduces the kinds, when what it sends is applied to the loaded state. -/
-theorem consumer_sound (L : Loaded) (x : Ent) (h : EInv L x) (r : List Nat) :
+theorem consumer_sound (L : Loaded) (x : Ent) (h : EInv L x) (ha : x.attached = true) (r : List Nat) :
     (propsTouched r = true → propsPartOk r = true →
       ∀ k, lookup (applyDelta L.kv (sentProps r x.props).1 (sentProps r x.props).2) k = lookup x.props.m k) ∧
     (kindsTouched r = true → kindsPartOk r = true →
       ∀ k, k ∈ applyKinds L.kinds (sentKinds r x).1 (sentKinds r x).2 ↔ k ∈ x.kinds) :=
-  ⟨fun ht hok k => sentProps_reproduces h.props r ht hok k, fun ht hok k => sentKinds_reproduces h.kinds r ht hok k⟩
+  ⟨fun ht hok k => sentProps_reproduces (by have := h.props; rw [base_att ha] at this; exact this) r ht hok k,
+   fun ht hok k => sentKinds_reproduces h.kinds r ht hok k⟩
 
 /-- The side condition is needed: a path that sends the whole map but not the deleted properties (the shape of
 neo4j `cypherBuildNodeUpdateQueryBatch`: reads AddedKinds, DeletedKinds, Properties.Map) loses a deletion — loaded
@@ -240,13 +332,13 @@ theorem incomplete_consumer_loses_deletion :
 
 /-- C12 holds at full strength of the code as it is. -/
 theorem c12 : C12_full :=
-  ⟨fun L hn ops e => exact_of_einv (sinv_run (sinv_init L hn) ops e), last_edit_wins⟩
+  ⟨fun L hn ops _ e => exact_of_einv (sinv_run (sinv_init L hn) ops e), last_edit_wins⟩
 
 /-- C12 was FALSE of the code before commit 179da67: after `Delete(a); Merge(unmodified other)` key `a` is in `Map` and in `Deleted`
 (DESIGN §5 F4; corpus/C12/c12_f4_props.ops is the same history, now a regression case against the real code). -/
 theorem c12_old_refuted : ¬ C12_old := by
   intro h
-  have hx := h.1 f4Load (by decide) [.delete false 0, .pmerge false true] false
+  have hx := h.1 f4Load (by decide) [.delete false 0, .pmerge false true] (fun _ => by decide) false
   have h1 : (0 : Key) ∈ (((St.init f4Load).run true [.delete false 0, .pmerge false true]).get false).props.del := by
     decide
   have h2 : lookup (((St.init f4Load).run true [.delete false 0, .pmerge false true]).get false).props.m 0 = some 1 := by
@@ -264,18 +356,20 @@ theorem c12_old_refuted : ¬ C12_old := by
 (c) the side condition is exact: from a consistent state, one operation keeps the state consistent iff it is safe;
 (d) the last edit wins. -/
 def C12_old_partial : Prop :=
-  (∀ (L : Loaded), L.kinds.Nodup → ∀ (ops : List Op) (e : Bool), EWeak L (((St.init L).run true ops).get e)) ∧
-  (∀ (L : Loaded), L.kinds.Nodup → ∀ (ops : List Op), (St.init L).SafeRun ops →
+  (∀ (L : Loaded), L.kinds.Nodup → ∀ (ops : List Op), (∀ o, o ∈ ops → o.isStrip = false) →
+      ∀ (e : Bool), EWeak L (((St.init L).run true ops).get e)) ∧
+  (∀ (L : Loaded), L.kinds.Nodup → ∀ (ops : List Op), (∀ o, o ∈ ops → o.isStrip = false) → (St.init L).SafeRun ops →
       ∀ e, Exact L (((St.init L).run true ops).get e)) ∧
   (∀ (st : St) (ops : List Op), (∀ o, o ∈ ops → o.isMerge = false) → st.SafeRun ops) ∧
-  (∀ (L : Loaded) (st : St) (o : Op), SInv L st → (SInv L (st.step true o) ↔ o.SafeAt st)) ∧
+  (∀ (L : Loaded) (st : St) (o : Op), SInv L st → SAtt st → o.isStrip = false →
+      (SInv L (st.step true o) ↔ o.SafeAt st)) ∧
   LastEditWins
 
 theorem c12_old_partial : C12_old_partial :=
-  ⟨fun L hn ops e => sweak_run_old (sinv_init L hn).toWeak ops e,
-   fun L hn ops hs e => exact_of_einv (sinv_run_old (sinv_init L hn) ops hs e),
+  ⟨fun L hn ops hs e => sweak_run_old (sinv_init L hn).toWeak (satt_init L) ops hs e,
+   fun L hn ops hst hs e => exact_of_einv (sinv_run_old (sinv_init L hn) (satt_init L) ops hst hs e),
    safeRun_of_noMerge,
-   fun _ _ o h => sinv_step_old_iff h o,
+   fun _ _ o h ha hst => sinv_step_old_iff h ha o hst,
    last_edit_wins⟩
 
 /-! ### non-vacuity (examples are tests, not theorems) -/
